@@ -465,3 +465,71 @@ package runtime
 //@ func (errorString).Error
 //@ props C06 C03
 //@ modifies nothing
+
+// ---------------------------------------------------------------------------
+// z_face.go — C07 run-time side: interface satisfaction and interface equality.
+// Method names are compared through strrank (an order-embedding of string
+// contents). ASSUMED about compiler-emitted method tables: strictly increasing
+// names within each table (one common total order).
+
+//@ ghostfn mrank(word, int) rank
+//@ ghostfn mtyp(word, int) word
+//@ macro itype(T): as(interfacetype, T)
+//@ macro nmeth(T): len(itype(T).Methods)
+//@ macro coupled(T): forall a int :: 0 <= a && a < nmeth(T) ==> mrank(T, a) == strrank(itype(T).Methods[a].Name_) && mtyp(T, a) == itype(T).Methods[a].Typ_
+//@ macro imatch(T, a, V, b): mrank(T, a) == mrank(V, b) && mtyp(T, a) == mtyp(V, b)
+//@ macro isorted(T): forall a int, b int :: 0 <= a && a < b && b < nmeth(T) ==> mrank(T, a) < mrank(T, b)
+//@ macro ucount(V): int(as(abi.UncommonType, uncommonof(V)).Mcount)
+//@ macro usorted(V): forall a int, b int :: 0 <= a && a < b && b < ucount(V) ==> urank(uncommonof(V), a) < urank(uncommonof(V), b)
+//@ macro umatch(T, a, V, b): mrank(T, a) == urank(uncommonof(V), b) && mtyp(T, a) == umtyp(uncommonof(V), b)
+
+//@ func Implements
+//@ props C07
+//@ arith int
+//@ requires T != nil && nmeth(T) >= 0 && nmeth(T) < 1<<30 && valid(itype(T).Methods.data, nmeth(T)*24)
+//@ requires V != nil && (V.Kind_ & 31) == 20 ==> nmeth(V) >= 0 && nmeth(V) < 1<<30 && valid(itype(V).Methods.data, nmeth(V)*24)
+//@ requires coupled(T) && isorted(T)
+//@ requires V != nil && (V.Kind_ & 31) == 20 ==> coupled(V) && isorted(V)
+//@ loop 1 invariant bounds: 0 <= i && i < nmeth(T) && 0 <= j && j <= nmeth(V)
+//@ loop 1 invariant matched: forall a int :: 0 <= a && a < i ==> exists b int :: 0 <= b && b < j && imatch(T, a, V, b)
+//@ loop 1 invariant unmatched: forall b int :: 0 <= b && b < j ==> !imatch(T, i, V, b)
+//@ loop 1 decreases nmeth(V) - j
+//@ requires V != nil && (V.Kind_ & 31) != 20 && uncommonof(V) != nil ==> usorted(V)
+//@ loop 2 invariant bounds: 0 <= i && i < nmeth(T) && 0 <= j && j <= ucount(V) && v == uncommonof(V) && v != nil && len(vmethods) == ucount(V) && valid(vmethods.data, len(vmethods)*40)
+//@ loop 2 invariant table: forall b int :: 0 <= b && b < len(vmethods) ==> strrank(vmethods[b].Name_) == urank(v, b) && vmethods[b].Mtyp_ == umtyp(v, b)
+//@ loop 2 invariant matched: forall a int :: 0 <= a && a < i ==> exists b int :: 0 <= b && b < j && umatch(T, a, V, b)
+//@ loop 2 invariant unmatched: forall b int :: 0 <= b && b < j ==> !umatch(T, i, V, b)
+//@ loop 2 decreases ucount(V) - j
+//@ ensures C07 nil: V == nil ==> !result
+//@ ensures C07 non-interface: (T.Kind_ & 31) != 20 ==> !result
+//@ ensures C07 empty: V != nil && (T.Kind_ & 31) == 20 && nmeth(T) == 0 ==> result
+//@ ensures C07 iface-iff: V != nil && (T.Kind_ & 31) == 20 && (V.Kind_ & 31) == 20 ==> (result <==> forall a int :: 0 <= a && a < nmeth(T) ==> exists b int :: 0 <= b && b < nmeth(V) && imatch(T, a, V, b))
+//@ ensures C07 concrete-iff: V != nil && (T.Kind_ & 31) == 20 && nmeth(T) > 0 && (V.Kind_ & 31) != 20 ==> (result <==> (uncommonof(V) != nil && forall a int :: 0 <= a && a < nmeth(T) ==> exists b int :: 0 <= b && b < ucount(V) && umatch(T, a, V, b)))
+//@ modifies nothing
+
+//@ func EfaceEqual
+//@ props C07
+//@ opt panic_writes allowed
+//@ ensures C07 nil: (v._type == nil || u._type == nil) ==> (result <==> v._type == u._type)
+//@ ensures C07 different-types: v._type != nil && u._type != nil && v._type != u._type ==> !result
+//@ ensures C07 direct: v._type != nil && v._type == u._type && (v._type.Kind_ & 32) != 0 ==> (result <==> v.data == u.data)
+//@ panics_iff C07 uncomparable: v._type != nil && v._type == u._type && v._type.Equal == nil
+//@ modifies nothing
+
+//@ ghostfn frank(word, int) rank
+//@ macro fcoupled(s): forall b int :: 0 <= b && b < len(s) ==> frank(s.data, b) == strrank(s[b].Name_)
+//@ macro fsorted(s): forall a int, b int :: 0 <= a && a < b && b < len(s) ==> frank(s.data, a) < frank(s.data, b)
+//@ macro fmatch(s, b, im): frank(s.data, b) == strrank(im.Name_) && s[b].Mtyp_ == im.Typ_
+
+//@ func findMethod
+//@ props C07
+//@ arith int
+//@ requires len(mthds) < 1<<30 && valid(mthds.data, len(mthds)*40) && fcoupled(mthds) && fsorted(mthds)
+//@ loop 1 invariant bounds: -1 <= rangeindex && rangeindex < len(mthds)
+//@ loop 1 invariant smaller: forall b int :: 0 <= b && b <= rangeindex ==> frank(mthds.data, b) < strrank(im.Name_)
+//@ loop 1 invariant seed: mention(frank(mthds.data, rangeindex + 1))
+//@ loop 1 decreases len(mthds) - rangeindex
+//@ ensures C07 found-iff: result1 <==> exists b int :: 0 <= b && b < len(mthds) && fmatch(mthds, b, im)
+//@ ensures C07 found-fn: result1 ==> exists b int :: 0 <= b && b < len(mthds) && fmatch(mthds, b, im) && result0 == mthds[b].Ifn_
+//@ ensures C07 not-found-nil: !result1 ==> result0 == nil
+//@ modifies nothing
